@@ -24,7 +24,7 @@ from mc.ref import typing as rt
 PROPERTY = "C14"
 MAXTASKS = 50
 RULE = (
-    "every sequence of <=2 operations (<=3 in thorough) from an alphabet of 40 concrete operations, every "
+    "every sequence of <=2 operations (<=3 in thorough) from an alphabet of 43 concrete operations, every "
     "sequence of 3 (4 in thorough) over a reduced 14-operation alphabet; "
     "operations range over 5 environments (module default, two instances, a subclass with "
     "max_recursion_depth=2, a subclass registering its own function), 8 queries and 4 documents, each "
@@ -43,6 +43,15 @@ D = {
     "deep": lambda: {"l": [[[[1]]]], "a": {"a": {"a": 1}}},
 }
 D["d2"] = D["d1"]  # equal to d1 but a distinct object
+
+
+def _aliased():
+    # the same container objects are reachable by two paths (no cycle): still ordinary data
+    addr = {"a": 1, "k": [{"a": 2}]}
+    return {"x": 1, "l": [addr, addr, {"a": 1, "b": "ab"}], "s": addr["k"], "m": {"n": addr}}
+
+
+D["alias"] = _aliased
 
 Q = {
     "qA": "$.l[?@.a == $.x]",
@@ -67,9 +76,11 @@ def ops_alphabet(tier_small=False):
         for d in ("d1", "d2", "d3", "deep"):
             ops.append(("apply", k, d))
     for e, q, d in [("E1", "qA", "d1"), ("E2", "qF", "d1"), ("D", "qA", "d3"), ("S", "qD", "deep"),
-                    ("E1", "qD", "deep"), ("SF", "qF", "d3"), ("E1", "qR", "d3")]:
+                    ("E1", "qD", "deep"), ("SF", "qF", "d3"), ("E1", "qR", "d3"), ("E1", "qD", "alias"),
+                    ("E2", "qA", "alias")]:
         ops.append(("find", e, q, d))
-    ops += [("mfind", "qA", "d1"), ("mfind", "qF", "d1"), ("mfind", "qM", "d1"), ("mfind", "qD", "deep")]
+    ops += [("mfind", "qA", "d1"), ("mfind", "qF", "d1"), ("mfind", "qM", "d1"), ("mfind", "qD", "deep"),
+            ("mfind", "qD", "alias")]
     ops += [("register", "E1"), ("register", "E2"), ("register", "D")]
     # the caller changes its own document in place between two calls, or drops it and builds a
     # new one (whose id() may coincide with the old one's): results must follow the data
